@@ -72,6 +72,17 @@ Loop fragment (kernel specs with `loops=True`; the block loops of CompoundInterv
           `frame.value`, `next_frame != frame` on CDSFrame values;
         - `<CI>.relative_interval_to_parent_location(a, b, s)` calls that CUT kernel: the value is its state at its
           cut (`RelOut`), which the caller can only return at its own cut.
+    * parent-less set algebra (`calls_pl=True`, result type `LocOut`): `CompoundInterval(starts, ends, strand[, parent])`
+      and `CompoundInterval._from_single_intervals_no_validation(blocks)`, each optionally followed by
+      `.optimize_blocks()`, stay SYMBOLIC (`LocOut.compound` / `LocOut.fromBlocks`: a constructor cut; the arguments are
+      evaluated); `return <SingleInterval>` / `return EmptyLocation()` are `LocOut.single` / `LocOut.empty`.
+      Method calls `x.has_overlap / intersection / contains / minus / reset_parent / _union_single_interval (…)` on an
+      SI- or CI-typed receiver (also the result of another such call) are bound to the callee kernel's parameters
+      (positional, keyword, source defaults — `PL_METHODS`): the callee is chosen by the type of the first argument,
+      parameters it has `fixed` must be statically that value at the call site, parent parameters must be None / opaque.
+      `parentless` also covers a CI-typed operand (`parent`, `parent_id` None, `is_empty` False, `type(x) is
+      SingleInterval` False: `algebra_guards`).  Also: `xs + ys` on lists, `min(<list>)` / `max(<list>)` (`pyMinList`,
+      ValueError on []), `tuple(<genexp>)`, `len(<SingleInterval-or-EmptyLocation expression>)`.
     * an assignment whose value mentions `.parent` / `.parent_id` (as an attribute, not e.g. `.parent_to_relative_pos`)
       is parent bookkeeping and skipped.
     * the CI view itself is guarded: `blocks`, `_single_intervals`, `num_blocks`, `__len__` and the assignments of
@@ -464,7 +475,7 @@ PYEXC = {"InvalidPositionException", "InvalidStrandException", "ValueError", "Ty
 LEAN_TYPE = {"Int": "Int", "Bool": "Bool", "Strand": "Strand", "CDSFrame": "CDSFrame", "CDSPhase": "CDSPhase",
              "SI": "SI", "OptSI": "Option SI", "Sym": "List Char", "Bins": "BinsResult", "VI": "VI",
              "CoordFmt": "CoordFmt", "DistanceType": "DistanceType", "CI": "CI", "RelOut": "RelOut",
-             "CombineOut": "CombineOut", "CDSV": "CDSV", "IntLists2": "(List Int × List Int)"}
+             "CombineOut": "CombineOut", "CDSV": "CDSV", "IntLists2": "(List Int × List Int)", "LocOut": "LocOut"}
 
 
 # methods of a SingleInterval-typed value that are themselves kernels: attr -> (kernel, argument types, result type).
@@ -515,6 +526,23 @@ CDSV_METHODS = {
     "_exon_iter": ("CDSInterval_exon_iter", "List:SI"),
     "_frame_iter": ("CDSInterval_frame_iter", "List:CDSFrame"),
 }
+# `calls_pl=True` kernels (parent-less set algebra): (receiver type, method) -> {type of the first argument: kernel}.
+# The call's arguments are bound to the callee's parameters (positional, keyword, source defaults); parameters the
+# callee kernel has `fixed` must be statically that value at the call site; unmodelled parameters must be None/opaque.
+PL_METHODS = {
+    ("SI", "has_overlap"): {"SI": "SingleInterval_has_overlap", "CI": "SingleInterval_has_overlap_ci"},
+    ("CI", "has_overlap"): {"SI": "CompoundInterval_has_overlap"},
+    ("SI", "intersection"): {"SI": "SingleInterval_intersection"},
+    ("SI", "contains"): {"SI": "Location_contains_si"},
+    ("SI", "minus"): {"CI": "SingleInterval_minus"},
+    ("SI", "reset_parent"): {None: "SingleInterval_reset_parent"},
+    ("SI", "_intersection_single_interval"): {"SI": "SingleInterval_intersection_single_interval"},
+    ("SI", "_has_overlap_single_interval"): {"SI": "SingleInterval_has_overlap_single_interval"},
+    ("SI", "_union_single_interval"): {"SI": "SingleInterval_union_single_interval"},
+    ("CI", "_union_single_interval"): {"SI": "CompoundInterval_union_single_interval"},
+}
+GUARD_FAILS = {}   # name of a view fact -> list of violated expectations (filled per run by gen_kernels)
+REPO = [None]
 EMITTED = set()
 RAISES = {}       # emitted kernel -> can its body raise?
 
@@ -646,6 +674,36 @@ def cdsv_view_guards(repo):
     except Exception as e:  # noqa
         bad.append(f"{type(e).__name__}: {e}")
     return bad
+
+
+def algebra_guards(repo):
+    """facts the parent-less set-algebra kernels rely on: name -> violated expectations"""
+    out = {"empty_len": [], "parentless_ci": []}
+    try:
+        mod = module_of(repo, "location/location_impl.py")
+        ecls = find_class(mod, "_EmptyLocation")
+        if src_of(body_no_doc(find_func(ecls, "length"))) != canon("return 0"):
+            out["empty_len"].append("_EmptyLocation.length is not `return 0`")
+        if any(isinstance(fn, ast.FunctionDef) and fn.name == "__len__" for fn in ecls.body):
+            out["empty_len"].append("_EmptyLocation defines __len__")
+        root = module_of(repo, "__init__.py")
+        if src_of(body_no_doc(find_func(find_class(root, "AbstractLocation"), "__len__"))) != canon("return self.length"):
+            out["empty_len"].append("AbstractLocation.__len__ is not `return self.length`")
+        ccls = find_class(mod, "CompoundInterval")
+        if src_of(body_no_doc(find_func(ccls, "is_empty"))) != canon("return self == EmptyLocation()"):
+            out["parentless_ci"].append("CompoundInterval.is_empty is not `self == EmptyLocation()`")
+        eq = body_no_doc(find_func(ccls, "__eq__"))
+        if not eq or ast.dump(eq[0]) != ast.dump(ast.parse("if type(other) is not CompoundInterval:\n    return False").body[0]):
+            out["parentless_ci"].append("CompoundInterval.__eq__ does not start with the type test")
+        for fn in ccls.body:
+            if isinstance(fn, ast.FunctionDef) and fn.name != "__init__":
+                for nd in ast.walk(fn):
+                    if isinstance(nd, ast.Attribute) and isinstance(nd.ctx, ast.Store) and nd.attr == "parent":
+                        out["parentless_ci"].append(f"CompoundInterval.{fn.name} assigns .parent")
+    except Exception as e:  # noqa
+        for k in out:
+            out[k].append(f"{type(e).__name__}: {e}")
+    return out
 
 
 def module_imports(mod):
@@ -786,6 +844,11 @@ class K:
                         return [], "none", "None"
                     if chain[1] == "is_empty":
                         return [], "False", "Prop"
+                if t == "CI" and len(chain) == 2 and self.spec.get("parentless") \
+                        and chain[1] in ("parent", "parent_id", "is_empty"):
+                    if GUARD_FAILS.get("parentless_ci"):
+                        raise Unsupported("parent-less CI view: " + "; ".join(GUARD_FAILS["parentless_ci"]))
+                    return ([], "none", "None") if chain[1] != "is_empty" else ([], "False", "Prop")
                 if t == "CI" and len(chain) == 2 and chain[1] in CI_ATTRS:
                     proj, pt = CI_ATTRS[chain[1]]
                     return [], f"{lname(chain[0])}.{proj}", pt
@@ -832,6 +895,8 @@ class K:
                     return bl, f"({cl} / {2 ** rv})", "Int"
                 return bl, f"({cl} * {2 ** rv})", "Int"
             br, cr, tr = self.expr(n.right)
+            if self.loops and isinstance(n.op, ast.Add) and tl == tr and tl.startswith("List:"):
+                return bl + br, f"({cl} ++ {cr})", tl
             bl, cl, tl = self.as_int(bl, cl, tl)
             br, cr, tr = self.as_int(br, cr, tr)
             if tl != "Int" or tr != "Int":
@@ -863,6 +928,12 @@ class K:
                 and isinstance(n.left.args[0], ast.Name) and self.types.get(n.left.args[0].id) == "SI" \
                 and isinstance(n.comparators[0], ast.Name) and n.comparators[0].id == "SingleInterval":
             return [], "True", "Prop"      # static type of the argument
+        if isinstance(n, ast.Compare) and len(n.ops) == 1 and isinstance(n.ops[0], ast.Is) \
+                and isinstance(n.left, ast.Call) and getattr(n.left.func, "id", "") == "type" and len(n.left.args) == 1 \
+                and isinstance(n.left.args[0], ast.Name) and self.types.get(n.left.args[0].id) == "CI" \
+                and isinstance(n.comparators[0], ast.Name) and n.comparators[0].id == "SingleInterval" \
+                and self.spec.get("parentless"):
+            return [], "False", "Prop"     # static type of the argument (a CompoundInterval)
         if isinstance(n, ast.Compare):
             binds, items = [], []
             for e in [n.left] + n.comparators:
@@ -996,6 +1067,14 @@ class K:
                 arms = " ".join(f"| .{k} => ({v} : Int)" for k, v in d.items())
                 return [], f"(match {n.slice.id} with {arms})", "Int"
             raise Unsupported(f"subscript {ast.unparse(n)}")
+        if isinstance(n, ast.Call) and self.ret == "LocOut" and self.loops:
+            lo = self.locout_call(n)
+            if lo is not None:
+                return lo
+        if isinstance(n, ast.Call) and self.spec.get("calls_pl"):
+            pc = self.pl_call(n)
+            if pc is not None:
+                return pc
         if isinstance(n, ast.Call):
             f = n.func
             fname = f.id if isinstance(f, ast.Name) else None
@@ -1010,6 +1089,13 @@ class K:
                     and self.types.get(n.args[0].id) == "IntPair":
                 nm = n.args[0].id
                 return [], f"({fname} {nm}_0 {nm}_1)", "Int"
+            if self.loops and fname in ("min", "max") and len(n.args) == 1 and not n.keywords \
+                    and not (isinstance(n.args[0], ast.Name) and self.types.get(n.args[0].id) == "IntPair"):
+                b, c, t = self.expr(n.args[0])
+                if t != "List:Int":
+                    raise Unsupported(f"{fname}() of {t}")
+                tmp = self.fresh()
+                return b + [(tmp, f"{'pyMinList' if fname == 'min' else 'pyMaxList'} {c}")], tmp, "Int"   # ValueError on []
             if fname == "abs":
                 b, c, t = self.expr(n.args[0])
                 return b, f"(pyAbs {c})", "Int"
@@ -1024,6 +1110,14 @@ class K:
                     return [], f"{ch[0]}.seqLen", "Int"
                 if ch and self.types.get(ch[0]) == "VI" and ch[1:] == ["chromosome_location"]:
                     return [], f"({ch[0]}.vend - {ch[0]}.vstart)", "Int"
+                if self.spec.get("calls_pl"):
+                    b, c, t = self.expr(a)
+                    if t == "SI":
+                        return b, f"({c}.«end» - {c}.start)", "Int"
+                    if t == "OptSI":
+                        if GUARD_FAILS.get("empty_len"):
+                            raise Unsupported("len(EmptyLocation()): " + "; ".join(GUARD_FAILS["empty_len"]))
+                        return b, f"(optSILen {c})", "Int"
                 raise Unsupported(f"len({ast.unparse(a)})")
             if self.loops and fname in ("reversed", "iter") and len(n.args) == 1 and not n.keywords:
                 b, c, t = self.expr(n.args[0])
@@ -1035,6 +1129,10 @@ class K:
                 if not (ta.startswith("List:") and tb.startswith("List:")) or ":" in ta[5:] or ":" in tb[5:]:
                     raise Unsupported(f"zip of {ta}, {tb}")
                 return ba + bb, f"(List.zip {ca} {cb})", f"List:Pair:{ta[5:]}:{tb[5:]}"
+            if self.loops and fname in ("tuple", "list") and len(n.args) == 1 and not n.keywords \
+                    and isinstance(n.args[0], (ast.GeneratorExp, ast.ListComp)):
+                g = n.args[0]       # tuple(<elt> for x in <list>): the same sequence as the list comprehension
+                return self.expr(ast.ListComp(elt=g.elt, generators=g.generators))
             if self.loops and fname == "zip_longest" and len(n.args) == 2 and not n.keywords:
                 # fillvalue defaults to None: List (Option a × Option b), NOT a zip (the lengths may differ)
                 if self.imports.get("zip_longest") != "itertools":
@@ -1197,6 +1295,131 @@ class K:
             raise Unsupported(f"call {ast.unparse(n)[:60]}")
         raise Unsupported(f"expression {type(n).__name__}")
 
+    def int_list(self, e):
+        """a tuple/list literal of ints, or a List:Int expression -> (binds, code)"""
+        if isinstance(e, (ast.Tuple, ast.List)) and e.elts:
+            parts = [self.expr(x) for x in e.elts]
+            if any(p_[2] != "Int" for p_ in parts):
+                raise Unsupported("starts/ends literal must hold ints")
+            return sum((p_[0] for p_ in parts), []), "[" + ", ".join(p_[1] for p_ in parts) + "]"
+        b, c, t = self.expr(e)
+        if t != "List:Int":
+            raise Unsupported(f"starts/ends of type {t}")
+        return b, c
+
+    def check_parent_expr(self, e):
+        """a parent argument of a constructor: not modelled; must be None, an opaque parent local or `<typed>.parent`"""
+        if isinstance(e, ast.Constant) and e.value is None:
+            return
+        if isinstance(e, ast.Name) and e.id in self.opaque:
+            return
+        ch = attr_chain(e)
+        if ch and len(ch) == 2 and ch[1] == "parent" and self.types.get(ch[0]) in ("SI", "CI"):
+            return
+        raise Unsupported(f"parent argument {ast.unparse(e)}")
+
+    def locout_call(self, n):
+        """CONSTRUCTOR CUT for kernels returning `LocOut`: `CompoundInterval(starts, ends, strand[, parent])` and
+        `CompoundInterval._from_single_intervals_no_validation(blocks)`, each optionally followed by
+        `.optimize_blocks()`, stay symbolic (their arguments are evaluated).  None when `n` is not of that shape."""
+        opt, inner = False, n
+        if isinstance(n.func, ast.Attribute) and n.func.attr == "optimize_blocks" and not n.args and not n.keywords \
+                and isinstance(n.func.value, ast.Call):
+            opt, inner = True, n.func.value
+        f = inner.func
+        flag = "true" if opt else "false"
+        if isinstance(f, ast.Name) and f.id == "CompoundInterval":
+            args = list(inner.args)
+            kws = {k.arg: k.value for k in inner.keywords}
+            if len(args) not in (3, 4) or set(kws) - {"parent"} or (len(args) == 4 and kws):
+                raise Unsupported("CompoundInterval(starts, ends, strand[, parent])")
+            parent = args[3] if len(args) == 4 else kws.get("parent")
+            if parent is not None:
+                self.check_parent_expr(parent)
+            (b1, c1), (b2, c2) = self.int_list(args[0]), self.int_list(args[1])
+            b3, c3, t3 = self.expr(args[2])
+            if t3 != "Strand":
+                raise Unsupported("CompoundInterval(...): strand argument")
+            return b1 + b2 + b3, f"(LocOut.compound {c1} {c2} {c3} {flag})", "LocOut"
+        if attr_chain(f) == ["CompoundInterval", "_from_single_intervals_no_validation"] and len(inner.args) == 1 \
+                and not inner.keywords:
+            b, c, t = self.expr(inner.args[0])
+            if t != "List:SI":
+                raise Unsupported(f"_from_single_intervals_no_validation of {t}")
+            return b, f"(LocOut.fromBlocks {c} {flag})", "LocOut"
+        return None
+
+    def pl_call(self, n):
+        """method call of the parent-less set algebra (`calls_pl` kernels); None when not applicable"""
+        f = n.func
+        if not isinstance(f, ast.Attribute):
+            return None
+        if isinstance(f.value, ast.Name):
+            if f.value.id not in self.types:
+                return None
+            rb, rc, rt = [], lname(f.value.id), self.types[f.value.id]
+        elif isinstance(f.value, ast.Call):
+            rb, rc, rt = self.expr(f.value)
+        else:
+            return None
+        cands = PL_METHODS.get((rt, f.attr))
+        if cands is None:
+            return None
+        callee_name = None
+        if None in cands:
+            callee_name = cands[None]
+        else:
+            if not n.args:
+                raise Unsupported(f"{f.attr}: first argument must be positional")
+            _, _, t0 = self.expr(n.args[0])
+            callee_name = cands.get(t0)
+            if callee_name is None:
+                raise Unsupported(f"{rt}.{f.attr} with a {t0} argument has no kernel")
+        if callee_name not in EMITTED:
+            raise Unsupported(f"{callee_name} not generated before its caller")
+        callee = next(k_ for k_ in KERNELS if k_["name"] == callee_name)
+        if callee.get("pinned") or callee.get("head"):
+            raise Unsupported(f"{callee_name}: view not callable here")
+        mod = module_of(REPO[0], callee["file"])
+        fn = find_func(find_class(mod, callee["cls"]) if callee["cls"] else mod, callee["fn"])
+        params = [a.arg for a in fn.args.args][1:]
+        if fn.args.kwonlyargs or fn.args.vararg or fn.args.kwarg:
+            raise Unsupported(f"{callee_name}: signature")
+        defaults = dict(zip(reversed(params), reversed(fn.args.defaults)))
+        actual = dict(zip(params, n.args))
+        if len(n.args) > len(params):
+            raise Unsupported(f"{f.attr}: too many arguments")
+        for kw in n.keywords:
+            if kw.arg not in params or kw.arg in actual:
+                raise Unsupported(f"{f.attr}: keyword {kw.arg}")
+            actual[kw.arg] = kw.value
+        modelled = dict(callee["args"][1:])
+        fixed = callee.get("fixed", {})
+        binds, codes = list(rb), []
+        for p_ in params:
+            e = actual.get(p_, defaults.get(p_))
+            if e is None:
+                raise Unsupported(f"{f.attr}: no value for parameter {p_}")
+            if p_ in modelled:
+                b, c, t = self.expr(e)
+                if t == "Prop":
+                    c, t = f"(decide {c})", "Bool"
+                if t != modelled[p_]:
+                    raise Unsupported(f"{f.attr}: parameter {p_} gets a {t}, the kernel takes {modelled[p_]}")
+                binds += b
+                codes.append(c)
+            elif p_ in fixed:
+                b, c, t = self.expr(e)
+                val = {"true": True, "false": False, "True": True, "False": False}.get(c)
+                if b or val is None or val is not fixed[p_]:
+                    raise Unsupported(f"{f.attr}: parameter {p_} must statically be {fixed[p_]}")
+            else:
+                self.check_parent_expr(e)      # unmodelled parameter (a parent)
+        if [a for a, _ in callee["args"][1:]] != [p_ for p_ in params if p_ in modelled]:
+            raise Unsupported(f"{callee_name}: parameter order")
+        tmp = self.fresh()
+        return binds + [(tmp, " ".join([callee_name, rc] + codes))], tmp, callee["ret"]
+
     def as_prop(self, c, t):
         if t == "Prop":
             return c
@@ -1254,6 +1477,11 @@ class K:
             return "CombineOut.same"
         if r == "CombineOut" and t == "None":
             return "CombineOut.empty"
+        if r == "LocOut":
+            if t == "SI":
+                return f"(LocOut.single {c})"
+            if t == "None":
+                return "LocOut.empty"
         if r == "Unit":
             return "(0 : Int)"
         if r == "Bool" and t == "Prop":
@@ -1671,7 +1899,9 @@ class K:
             if not isinstance(target, ast.Name):
                 raise Unsupported("assignment target")
             src = ast.unparse(value)
-            if re.search(r"\.parent(_id)?(?![A-Za-z0-9_])", src) or "strip_location_info" in src:
+            is_ctor = self.ret == "LocOut" and self.loops and isinstance(value, ast.Call) \
+                and isinstance(value.func, ast.Name) and value.func.id == "CompoundInterval"
+            if not is_ctor and (re.search(r"\.parent(_id)?(?![A-Za-z0-9_])", src) or "strip_location_info" in src):
                 self.opaque.add(target.id)          # parent bookkeeping: not part of the integer kernel
                 return self.block(rest)
             while self.loops and isinstance(value, ast.IfExp):
@@ -1919,6 +2149,34 @@ KERNELS = [
          locals={"cleaned_rel_starts": "List:Int", "cleaned_rel_ends": "List:Int"},
          cut=dict(before_call="relative_interval_to_parent_location", ctor="Prod.mk",
                   returns=[("cleaned_rel_starts", "List:Int"), ("cleaned_rel_ends", "List:Int")])),
+    # ---- parent-less set algebra (C02): results are `LocOut` (object constructions stay symbolic: CONSTRUCTOR CUT) ----
+    dict(name="SingleInterval_union_single_interval", file="location/location_impl.py", cls="SingleInterval",
+         fn="_union_single_interval", args=[("self", "SI"), ("other", "SI")], ret="LocOut", loops=True, parentless=True,
+         calls_pl=True),
+    dict(name="SingleInterval_intersection", file="location/location_impl.py", cls="SingleInterval", fn="intersection",
+         args=[("self", "SI"), ("other", "SI"), ("match_strand", "Bool")], ret="OptSI", loops=True, parentless=True,
+         calls_pl=True, fixed={"full_span": False, "strict_parent_compare": False}),
+    # `Location.contains` (location.py) on two parent-less SingleIntervals
+    dict(name="Location_contains_si", file="location/location.py", cls="Location", fn="contains",
+         args=[("self", "SI"), ("other", "SI"), ("match_strand", "Bool")], ret="Bool", loops=True, parentless=True,
+         calls_pl=True, fixed={"full_span": False, "strict_parent_compare": False}),
+    # SingleInterval.has_overlap with a parent-less CompoundInterval argument (dispatches to other.has_overlap(self, …))
+    dict(name="SingleInterval_has_overlap_ci", file="location/location_impl.py", cls="SingleInterval", fn="has_overlap",
+         args=[("self", "SI"), ("other", "CI"), ("match_strand", "Bool")], ret="Bool", loops=True, parentless=True,
+         calls_pl=True, fixed={"full_span": False, "strict_parent_compare": False}),
+    # `other` is a parent-less CompoundInterval (view CI: `other.blocks`)
+    dict(name="SingleInterval_minus", file="location/location_impl.py", cls="SingleInterval", fn="minus",
+         args=[("self", "SI"), ("other", "CI"), ("match_strand", "Bool")], ret="LocOut", loops=True, parentless=True,
+         calls_pl=True, fixed={"strict_parent_compare": False},
+         locals={"result_starts": "List:Int", "result_ends": "List:Int"}),
+    dict(name="CompoundInterval_union_single_interval", file="location/location_impl.py", cls="CompoundInterval",
+         fn="_union_single_interval", args=[("self", "CI"), ("other", "SI")], ret="LocOut", loops=True, parentless=True,
+         calls_pl=True, locals={"overlapping_blocks": "List:SI", "non_overlapping_blocks": "List:SI"}),
+    # CUT before `_ = r._single_intervals` (forces the per-block SingleInterval constructors, i.e. the bound checks
+    # against a parent's sequence; nothing for a parent-less location): returns `r` = the constructor's arguments
+    dict(name="CompoundInterval_shift_position", file="location/location_impl.py", cls="CompoundInterval",
+         fn="shift_position", args=[("self", "CI"), ("shift", "Int")], ret="LocOut", loops=True, parentless=True,
+         cut=dict(before_stmt="_ = r._single_intervals", ctor=None, returns=[("r", "LocOut")])),
     # `cleaned_location` is a parent-less CompoundInterval (from_single_intervals / chromosome_location always build
     # one); `loc_on_chrom` is read only through `.start` / `.end` (view SI).  CUT before
     # `fivep_distance_mod3 = len(fivep_loc) % 3`: returns `fivep_loc` = the state of the generated
@@ -1972,6 +2230,9 @@ def gen_kernels(repo, errors):
     ci_bad = ci_view_guards(repo)
     pl_bad = parentless_guards(repo)
     cdsv_bad = cdsv_view_guards(repo)
+    REPO[0] = repo
+    GUARD_FAILS.clear()
+    GUARD_FAILS.update(algebra_guards(repo))
     RAISES.clear()
     excsub = exc_subclasses(repo)
     for spec in KERNELS:
